@@ -535,6 +535,14 @@ def check(run):
                     applicable.add(k)
         for k in sorted(keys):
             run.check(k in applicable, r2, 'exporter', "key '%s' is exported for %s" % (k, cname), "%s takes '%s' on import but the exporter never writes it for that class" % (cname, k), xi.node)
+        # .. and conversely: what the exporter writes for a state of this class and some constructor takes, this class's constructor call takes too
+        universe = set()
+        for c2, ks2 in per_class.items():
+            if prog.is_subclass(c2, 'StateMixin'):
+                universe |= set(ks2)
+        for k in sorted((applicable & universe) - set(per_class.get(cname, ()))):
+            run.fail(r2, 'state importer', "key '%s' of a %s is handed to its constructor" % (k, cname),
+                     "the exporter writes '%s' for a %s but the importer builds %s without it: the field is lost on re-import" % (k, cname, cname), si.node)
     # contract import: guard key = value key
     for (lv, k), val in inodes.items():
         if lv.startswith('contract:'):
